@@ -69,4 +69,18 @@ CHECKS = {
             dict(run="TestRoundTrip", build="unsafe", checks_quick=5000, checks_thorough=100000),
         ],
     ),
+    "C01": dict(
+        pkg="props/c01", level="exploration",
+        technique="model-based property testing (rapid): generated Writer programs and produce-fault scripts against an in-memory fake cluster, oracle over the wire journal",
+        level_text=("Generated scenarios (1-4 concurrent callers, 1-2 topics x 1-4 partitions, every batch/acks/compression/balancer setting, produce v2..v8) run the real Writer against the fake cluster, "
+                    "which injects per-request faults (temporary/permanent codes, dropped before/after apply, cut responses, stalls, leader moves). Oracle over the journal: partition = balancer's choice, "
+                    "nil/WriteErrors[i] == acknowledged, Completion exactly once with the same outcome, no resend after a delivered acknowledgement."),
+        level_note="caller interleavings and timers are sampled, not enumerated; trusts the fake broker's produce semantics (DESIGN A.6) and the reference record decoder",
+        rule=("case = (cluster layout, writer config, caller programs, fault script per produce request); every 3rd case is built from one of 5 strata (lost ack + retry, permanent error, mixed outcome in one call, async, stalled request). "
+              "Non-trivial = at least one fault hit a produce request or two callers shared a partition; distinct by (config class, fault-kind multiset, label set)."),
+        assumptions=["fake broker applies a produce request atomically and answers in request order", "an acknowledgement counts as delivered when the response frame was written completely to a connection the client had not closed"],
+        units=[
+            dict(run="TestWriterFaults", checks_quick=350, checks_thorough=1500, shards_quick=4, shards_thorough=16, timeout=1500),
+        ],
+    ),
 }
